@@ -32,20 +32,33 @@ theorem l2_built_packet_reparse (o : Wire.AnyObj) (os : List Wire.AnyObj) (hs : 
       Wire.L2.ViewEq (Wire.L2.padOf (o :: os)) (o :: os) os' :=
   Wire.L2.l2_chain_reparse o os hs out hser
 
-/-- **built_packet_reparse** — the wire half of C04 for whole packets of all covered families: ANY stack of layers (built
-    through the API or parsed) of the link-layer family, IP, IPSecAH, IPSecESP, IPv6, UDP, TCP, ICMP, ICMPv6 over an optional
-    RawPDU that the protocols can express (`StackableAll`: every layer satisfies its invariant and the side conditions of its
-    wire format — wire-normal IP options, canonical TCP options, aligned IPv6 extension headers, sizes that fit the 16-bit
-    length fields, no ICMP extension structure — and each layer's successor is a class its next-protocol tag names under the
-    dispatch the parser uses, or a RawPDU under a tag libtins does not dispatch on), once serialized, is parsed back by libtins
-    to the same classes in the same order with the same views and payload (at most `padAll` bytes of minimum-frame padding
-    behind it; none through IP / IPv6).  The object half is `<fam>_mk_inv` / `<fam>_apply_inv` and the per-class last-write-map
-    and codec theorems of every family (`Audit/Wire*.lean`). -/
+/-- **built_packet_reparse** — the wire half of C04 for whole packets of ALL modelled families: ANY stack of layers (built
+    through the API or parsed) of the link-layer family, IP, IPSecAH, IPSecESP, IPv6, UDP, TCP, ICMP, ICMPv6, the App family
+    (ARP, STP, VXLAN, RTP, BootP, DHCP, DHCPv6) and the Wifi family (RadioTap, the Dot11 classes, RC4EAPOL, RSNEAPOL) over an
+    optional RawPDU that the protocols can express (`StackableAll`: every layer satisfies its invariant and the side conditions
+    of its wire format — wire-normal IP options, canonical TCP / DHCP / DHCPv6 / Dot11 tagged options (KF-WApp-6: a DHCP option
+    of 256 bytes or more is not representable), aligned IPv6 extension headers, sizes that fit the 16-bit length fields, no
+    ICMP extension structure, RTP's `Canon`, BootP's 64-byte vendor area, the RadioTap header / flags condition — and each
+    layer's successor is a class its next-protocol tag names under the dispatch the parser uses, or a RawPDU under a tag
+    libtins does not dispatch on: e.g. DHCP below UDP is NOT representable, libtins re-parses UDP's payload as RawPDU; a
+    RadioTap without FCS and without a frame is not, the constructor rejects it), once serialized, is parsed back by libtins to
+    the same classes in the same order with the same views and payload (at most `padAll` bytes of minimum-frame padding
+    behind it; none through IP / IPv6 / EAPOL).  The object half is `<fam>_mk_inv` / `<fam>_apply_inv` and the per-class
+    last-write-map and codec theorems of every family (`Audit/Wire*.lean`). -/
 theorem built_packet_reparse (o : Wire.AnyObj) (os : List Wire.AnyObj) (hs : Wire.ChainAll.StackableAll (o :: os)) (out : Bytes)
     (hser : Wire.serializeObjs (o :: os) = .ok out) :
     ∃ os', Wire.parseChain (out.length + 2) o.info.1 out = .ok os' ∧
       Wire.ChainAll.ViewEqAll (Wire.ChainAll.padAll (o :: os)) (o :: os) os' :=
   Wire.ChainAll.chain_reparse_all o os hs out hser
+
+/-- **built_packet_reparse_entry** — … and the same under every entry point that reaches the class of the outermost layer:
+    its class name, `Dot11::from_bytes` (`Dot11*`) for a Dot11 object whose frame-control octet selects its class,
+    `EAPOL::from_bytes` (`EAPOL`, `EAPOL*`) for a key frame whose descriptor type octet does (`EntryName`). -/
+theorem built_packet_reparse_entry (n : String) (o : Wire.AnyObj) (os : List Wire.AnyObj) (hn : Wire.ChainAll.EntryName n o)
+    (hs : Wire.ChainAll.StackableAll (o :: os)) (out : Bytes) (hser : Wire.serializeObjs (o :: os) = .ok out) :
+    ∃ os', Wire.parseChain (out.length + 2) n out = .ok os' ∧
+      Wire.ChainAll.ViewEqAll (Wire.ChainAll.padAll (o :: os)) (o :: os) os' :=
+  Wire.ChainAll.chain_reparse_all_named n o os hn hs out hser
 
 /-- **built_packet_reparse_net** — through IP / IPv6 the payload comes back byte for byte -/
 theorem built_packet_reparse_net (o : Wire.AnyObj) (os : List Wire.AnyObj) (hs : Wire.ChainAll.StackableAll (o :: os))
